@@ -31,6 +31,8 @@ struct ConcRun {
     // shared objects
     void *g1p[3], *g2p[3], *prep, *gt, *wparams, *wmsk, *wkey, *wct, *wsig, *lqparams, *lqmsk, *lqid, *lqsk, *lqct;
     std::vector<uint8_t> params_bytes, key_bytes, ct_bytes, sig_bytes;
+    jv_attr* sh_at[4] = {nullptr, nullptr, nullptr, nullptr};   // attribute arrays that several tasks read concurrently (sealed): ascending lists {0:5, 1:7+v, 2:9}
+    jv_attr* sh_desc = nullptr;                                  // the same three slots in descending order (any order is accepted by precompute/encrypt/sign/verify)
     struct TaskOut { std::vector<std::string> digests; uint64_t stream_requests = 0; std::string err; };
     ConcRun(RunEnv& e, const Plan& p) : env(e), R(*e.rep), view(e.view), plan(p) {}
 
@@ -64,6 +66,24 @@ struct ConcRun {
         lqsk = sh.take(R.sz(JV_SZ_LQ_SK)); R.jv_lq_keygen(view, lqsk, lqmsk, lqid);
         lqct = sh.take(R.sz(JV_SZ_LQ_CT)); uint8_t sym[16]; HashStub hsb; tl_hash = &hsb; R.jv_lq_encrypt(view, lqct, sym, 16, lqparams, lqid, jv_hash_cb, jv_rand_cb);
         tl_stream = nullptr; tl_hash = nullptr;
+        for (int v4 = 0; v4 < 4; v4++) { sh_at[v4] = (jv_attr*) sh.take(3 * sizeof(jv_attr)); set_attr(sh_at[v4][0], 0, 5); set_attr(sh_at[v4][1], 1, 7 + (uint64_t) v4); set_attr(sh_at[v4][2], 2, 9); }
+        sh_desc = (jv_attr*) sh.take(3 * sizeof(jv_attr)); set_attr(sh_desc[0], 2, 9); set_attr(sh_desc[1], 1, 7); set_attr(sh_desc[2], 0, 5);
+        if (plan.c("reload", 0)) {
+            // the parties restarted: every shared object was reloaded from its durable (compressed where there is a choice) bytes, as a
+            // deployment does, so whatever unmarshal leaves to be filled in lazily would be filled in by the first concurrent caller
+            env.count("fault:restart_from_durable_bytes");
+            { void* p2 = sh.take(R.sz(JV_SZ_WK_PARAMS)); void* h2 = sh.take((size_t) l * R.sz(JV_SZ_G1)); R.jv_wk_params_init(p2, h2, l); std::vector<uint8_t> cb(R.jv_wk_get_marshalled_length(view, JV_OK_WK_PARAMS, wparams, 1)); R.jv_wk_marshal(view, JV_OK_WK_PARAMS, cb.data(), wparams, 1); if (R.jv_wk_unmarshal(view, JV_OK_WK_PARAMS, p2, cb.data(), 1, 1)) wparams = p2; }
+            { void* k2 = sh.take(R.sz(JV_SZ_WK_SK)); void* b2 = sh.take((size_t) l * R.sz(JV_SZ_WK_FREESLOT)); R.jv_wk_sk_init(k2, b2); std::vector<uint8_t> cb(R.jv_wk_get_marshalled_length(view, JV_OK_WK_SK, wkey, 1)); R.jv_wk_marshal(view, JV_OK_WK_SK, cb.data(), wkey, 1); R.jv_wk_set_length(view, JV_OK_WK_SK, k2, cb.data(), cb.size(), 1); if (R.jv_wk_unmarshal(view, JV_OK_WK_SK, k2, cb.data(), 1, 1)) wkey = k2; }
+            { void* c2 = sh.take(R.sz(JV_SZ_WK_CT)); if (R.jv_wk_unmarshal(view, JV_OK_WK_CT, c2, ct_bytes.data(), 1, 1)) wct = c2; }
+            { void* s2 = sh.take(R.sz(JV_SZ_WK_SIG)); std::vector<uint8_t> cb(R.jv_wk_get_marshalled_length(view, JV_OK_WK_SIG, wsig, 1)); R.jv_wk_marshal(view, JV_OK_WK_SIG, cb.data(), wsig, 1); if (R.jv_wk_unmarshal(view, JV_OK_WK_SIG, s2, cb.data(), 1, 1)) wsig = s2; }
+            { void* m2 = sh.take(R.sz(JV_SZ_WK_MSK)); std::vector<uint8_t> cb(R.jv_wk_get_marshalled_length(view, JV_OK_WK_MSK, wmsk, 1)); R.jv_wk_marshal(view, JV_OK_WK_MSK, cb.data(), wmsk, 1); if (R.jv_wk_unmarshal(view, JV_OK_WK_MSK, m2, cb.data(), 1, 1)) wmsk = m2; }
+            uint8_t lb[1024];
+            { void* o2 = sh.take(R.sz(JV_SZ_LQ_PARAMS)); R.jv_lq_marshal(view, JV_OK_LQ_PARAMS, lb, lqparams, 1); if (R.jv_lq_unmarshal(view, JV_OK_LQ_PARAMS, o2, lb, 1, 1)) lqparams = o2; }
+            { void* o2 = sh.take(R.sz(JV_SZ_LQ_ID)); R.jv_lq_marshal(view, JV_OK_LQ_ID, lb, lqid, 1); if (R.jv_lq_unmarshal(view, JV_OK_LQ_ID, o2, lb, 1, 1)) lqid = o2; }
+            { void* o2 = sh.take(R.sz(JV_SZ_LQ_SK)); R.jv_lq_marshal(view, JV_OK_LQ_SK, lb, lqsk, 1); if (R.jv_lq_unmarshal(view, JV_OK_LQ_SK, o2, lb, 1, 1)) lqsk = o2; }
+            { void* o2 = sh.take(R.sz(JV_SZ_LQ_CT)); R.jv_lq_marshal(view, JV_OK_LQ_CT, lb, lqct, 1); if (R.jv_lq_unmarshal(view, JV_OK_LQ_CT, o2, lb, 1, 1)) lqct = o2; }
+            { void* o2 = sh.take(R.sz(JV_SZ_G2P)); void* q2 = sh.take(R.sz(JV_SZ_G2A)); R.jv_g2_marshal(view, lb, g2p[0], 1); if (R.jv_g2_unmarshal(view, q2, lb, 1, 1)) { R.jv_g2prepared_prepare(view, o2, q2); prep = o2; } }
+        }
         trap_arena_seal(sh.base, sh.cap, "shared-input arena (objects several tasks read concurrently)");
     }
 
@@ -87,7 +107,7 @@ struct ConcRun {
         s.stream.reseed(mix3(a, b, 99)); s.stream.begin_call(4096); s.hash.calls.clear(); memset(s.bytes.p, 0, s.bytes.n);
         tl_stream = &s.stream; tl_hash = &s.hash;
         std::string d;
-        jv_attr at[3]; set_attr(at[0], 0, 5); set_attr(at[1], 1, 7 + (a & 3)); set_attr(at[2], 2, 9);
+        jv_attr* at = sh_at[a & 3];   // shared, sealed attribute array (a caller's list object reused by several threads)
         switch (k) {
         case 0: { InLib g; r.jv_pairing(view, s.gt1, g1p[a % 3], g2p[b % 3]); } d = sha_hex(s.gt1.p, 576, 12); break;
         case 1: { InLib g; r.jv_prepared_pairing(view, s.gt1, g1p[a % 3], prep); } d = sha_hex(s.gt1.p, 576, 12); break;
@@ -99,7 +119,7 @@ struct ConcRun {
         case 6: { InLib g; r.jv_g1_random(view, s.g1, jv_rand_cb); } { uint8_t c[97]; r.jv_g1_canon(c, s.g1); d = sha_hex(c, 97, 12); } break;
         case 7: { InLib g; r.jv_gt_multiply_random(view, s.gt1, s.fr.b, gt, jv_rand_cb); } d = sha_hex(s.gt1.p, 576, 12) + hex(s.fr.b, 8); break;
         case 8: { uint8_t h[48]; Rng rr(a); rr.fill(h, 48); { InLib g; r.jv_g1affine_from_hash(view, s.g1a, h); } uint8_t c[97]; r.jv_g1a_canon(c, s.g1a); d = sha_hex(c, 97, 12); break; }
-        case 9: { r.jv_wk_sk_init(s.key, s.keyb); jv_attrs al = mk_attrs(at, 1 + (a & 1)); { InLib g; r.jv_wk_keygen(view, s.key, wparams, wmsk, &al, jv_rand_cb); } d = key_digest(s.key); break; }
+        case 9: { r.jv_wk_sk_init(s.key, s.keyb); jv_attrs al = (b % 5 == 0) ? mk_attrs(sh_desc, 3) : mk_attrs(at, 1 + (a & 1)); { InLib g; r.jv_wk_keygen(view, s.key, wparams, wmsk, &al, jv_rand_cb); } d = key_digest(s.key); break; }
         case 10: { r.jv_wk_sk_init(s.key, s.keyb); jv_attrs al = mk_attrs(at, 2); { InLib g; if (b & 1) r.jv_wk_qualifykey(view, s.key, wparams, wkey, &al, jv_rand_cb); else r.jv_wk_nd_qualifykey(view, s.key, wparams, wkey, &al); } d = key_digest(s.key); break; }
         case 11: { jv_attrs al = mk_attrs(at, 1 + (a % 3)); { InLib g; r.jv_wk_encrypt(view, s.ct, gt, wparams, &al, jv_rand_cb); } std::vector<uint8_t> bb = marshal_digest(JV_OK_WK_CT, s.ct); d = sha_hex(bb.data(), bb.size(), 12); break; }
         case 12: { { InLib g; if (a & 1) r.jv_wk_decrypt(view, s.gt1, wct, wkey); else r.jv_wk_decrypt_master(view, s.gt1, wct, wmsk); } d = sha_hex(s.gt1.p, 576, 12); break; }
@@ -108,7 +128,7 @@ struct ConcRun {
         case 15: { { InLib g; r.jv_lq_encrypt(view, s.lqct, s.sym, 32, lqparams, lqid, jv_hash_cb, jv_rand_cb); } d = hex(s.sym, 32) + strf(":%zu", s.hash.calls.size()); break; }
         case 16: { { InLib g; r.jv_lq_decrypt(view, s.sym, 16, lqct, lqsk, lqid, jv_hash_cb); } d = hex(s.sym, 16); break; }
         case 17: { r.jv_wk_params_init(s.params, s.paramsh, 3); int ok; { InLib g; ok = r.jv_wk_unmarshal(view, JV_OK_WK_PARAMS, s.params, params_bytes.data(), 1, (int) (a & 1)); } std::vector<uint8_t> bb = marshal_digest(JV_OK_WK_PARAMS, s.params); d = strf("%d:", ok) + sha_hex(bb.data(), bb.size(), 12); break; }
-        case 18: { jv_attrs al = mk_attrs(at, 2); { InLib g; r.jv_wk_precompute(view, s.pre, wparams, &al); r.jv_wk_encrypt_precomputed(view, s.ct, gt, wparams, s.pre, jv_rand_cb); } std::vector<uint8_t> bb = marshal_digest(JV_OK_WK_CT, s.ct); d = sha_hex(bb.data(), bb.size(), 12); break; }
+        case 18: { jv_attrs al = (b & 2) ? mk_attrs(sh_desc, 3) : mk_attrs(at, 2); { InLib g; r.jv_wk_precompute(view, s.pre, wparams, &al); r.jv_wk_encrypt_precomputed(view, s.ct, gt, wparams, s.pre, jv_rand_cb); } std::vector<uint8_t> bb = marshal_digest(JV_OK_WK_CT, s.ct); d = sha_hex(bb.data(), bb.size(), 12); break; }
         case 19: { r.jv_wk_sk_init(s.key, s.keyb); jv_attrs al = mk_attrs(at, 1); { InLib g; r.jv_wk_precompute(view, s.pre, wparams, &al); r.jv_wk_resamplekey(view, s.key, wparams, s.pre, wkey, (int) (a & 1), jv_rand_cb); } d = key_digest(s.key); break; }
         case 20: { r.jv_wk_sk_init(s.key, s.keyb); jv_attrs f = mk_attrs(at, 2), t3 = mk_attrs(at, 3), t1 = mk_attrs(at, 1); { InLib g; r.jv_wk_nd_qualifykey(view, s.key, wparams, wkey, &f); r.jv_wk_adjust_nd(view, s.key, wkey, &f, (a & 1) ? &t3 : &t1); } d = key_digest(s.key); break; }
         case 21: { jv_attrs al = mk_attrs(at, 1); int ok; { InLib g; r.jv_wk_precompute(view, s.pre, wparams, &al); r.jv_wk_sign_precomputed(view, s.sig, wparams, wkey, &al, s.pre, sc, jv_rand_cb); ok = r.jv_wk_verify_precomputed(view, wparams, s.pre, s.sig, sc); } std::vector<uint8_t> bb = marshal_digest(JV_OK_WK_SIG, s.sig); d = strf("%d:", ok) + sha_hex(bb.data(), bb.size(), 12); break; }
@@ -192,7 +212,7 @@ struct ConcScenario : Scenario {
     Plan generate(uint64_t seed, const std::map<std::string, int64_t>&) override {
         Rng r(seed); Plan p; p.scenario = name();
         int tasks = r.range(2, 6); p.cfg["tasks"] = tasks; p.cfg["pswitch"] = r.chance(1, 5) ? 62 : r.range(2, 18);   // 62 = coarse schedule: preemption only at the random/hash callbacks
-        p.cfg["sched_seed"] = (int64_t) (r.next() >> 1); p.cfg["setup_seed"] = (int64_t) (r.next() >> 1);
+        p.cfg["sched_seed"] = (int64_t) (r.next() >> 1); p.cfg["setup_seed"] = (int64_t) (r.next() >> 1); p.cfg["reload"] = r.chance(1, 2);
         for (int t = 0; t < tasks; t++) { int n = r.range(2, 6); for (int i = 0; i < n; i++) p.ops.push_back({"T", {(int64_t) r.below(ConcRun::NKINDS), (int64_t) r.below(1000), (int64_t) r.below(1000), t}, {}}); }
         return p;
     }
